@@ -1,6 +1,7 @@
 """C14 - JSON serialisation is faithful: jsonParse(jsonStringify(v)) equals v."""
 import itertools
 import json
+import random
 import re
 
 from hypothesis import strategies as st
@@ -253,6 +254,43 @@ def share_subvalue(v, seed):
     return True
 
 
+def poison_and_repair(v, indent, seed):
+    """Put something that has no JSON form (a non-finite number, the container itself) somewhere inside container v, let jsonStringify fail on it (with
+    and without indentation), then take it out again - v is an ordinary JSON value once more. Returns False if v has no container."""
+    if not isinstance(v, (list, dict)):
+        return False
+    rnd = random.Random(seed)
+    path = [v]
+    while True:
+        kids = [x for x in (path[-1] if isinstance(path[-1], list) else path[-1].values()) if isinstance(x, (list, dict))]
+        if not kids or rnd.random() < 0.4:
+            break
+        path.append(rnd.choice(kids))
+    node = path[-1]
+    bad = rnd.choice([float('inf'), float('-inf'), float('nan'), node, v, path[len(path) // 2]])
+    if isinstance(node, list):
+        at = rnd.randint(0, len(node))
+        node.insert(at, bad)
+    else:
+        at = rnd.choice(['', 'zz', '\uffff', 'a'] + sorted(node)[:1])
+        saved = node.get(at, node)
+        node[at] = bad
+    try:
+        for n in ([indent, None] if indent else [None, 2]):
+            log = []
+            out = impl.run_model(models()['plain' if n is None else 'indent'], {'v': v, 'n': n}, log, debug=True)
+            if out.kind != 'ok':
+                raise Violation('jsonStringify of a value without a JSON form ended the script: %r' % (out,), {'kind': 'json', 'v': 'null', 'indent': enc(indent)}, 'stringify-raises')
+    finally:
+        if isinstance(node, list):
+            del node[at]
+        elif saved is node:
+            del node[at]
+        else:
+            node[at] = saved
+    return True
+
+
 def plan(tier):
     parts = 6 if tier == 'quick' else 12
     specs = [{'kind': 'punct', 'part': i, 'parts': parts} for i in range(parts)]
@@ -297,23 +335,31 @@ def run_shard(ctx, spec):
                          {'name': name, 'indent': indent, 'length': len(text)})
         return
 
-    def prop(v, indent, share):
+    def prop(v, indent, share, poison):
         tree = enc(v) if share else None
         shared = share_subvalue(v, share) if share else False
+        poisoned = False
         try:
+            if poison:
+                poisoned = poison_and_repair(v, indent, poison)
             text = check_value(v, indent, seen)
         except Violation as e:
             if shared:
                 e.detail.update(tree=tree, share=share)
+            if poison:
+                e.detail.update(poison=poison)
+                e.bucket = 'after-failed-stringify:' + e.bucket
             raise
         depth = 0
         x = text
         ctx.case(digest(enc([v, indent])), nontrivial(v),
                  ['indent' if indent else 'compact', 'container' if isinstance(v, (list, dict)) else 'scalar', 'shared-subvalue' if shared else 'tree',
+                  'stringified-after-a-failed-attempt' if poisoned else 'first-attempt',
                   'surrogate' if re.search('[\ud800-\udfff]', json.dumps(v, ensure_ascii=False)) else 'no-surrogate'],
                  {'value': v, 'indent': indent, 'text': text[:120]})
     indent = st.one_of(st.none(), st.none(), st.integers(1, 8).map(float), st.integers(1, 8))
-    run_hypothesis(ctx, prop, [json_values(4), indent, st.one_of(st.just(0), st.just(0), st.integers(1, 2 ** 20))], spec['n'], salt=spec['k'])
+    run_hypothesis(ctx, prop, [json_values(4), indent, st.one_of(st.just(0), st.just(0), st.integers(1, 2 ** 20)),
+                               st.one_of(st.just(0), st.just(0), st.integers(1, 2 ** 20))], spec['n'], salt=spec['k'])
 
 
 def replay(detail):
@@ -325,4 +371,6 @@ def replay(detail):
     if detail.get('share'):
         v = dec(detail['tree'])
         share_subvalue(v, detail['share'])
+    if detail.get('poison'):
+        poison_and_repair(v, dec(detail['indent']), detail['poison'])
     check_value(v, dec(detail['indent']), {})
